@@ -74,7 +74,7 @@ def main():
     summary = meta["summary"].strip()
     if not summary.startswith("fix:"):
         summary = "fix: " + summary
-    c = sh("git -C %s commit -qam %s" % (REPO, json.dumps(summary)))
+    c = subprocess.run(["git", "-C", REPO, "commit", "-qam", summary], capture_output=True, text=True)
     if c.returncode != 0:
         print("commit failed", c.stderr); sh("git -C %s checkout -- ." % REPO); return 6
     commit = sh("git -C %s log --format=%%h -1" % REPO).stdout.strip()
